@@ -196,3 +196,147 @@ Proof.
   intros Hf Ht Hpos Hn. rewrite precision_uniform_ticks by assumption.
   cbn [prec_sb]. apply tsc_sb_spec; [assumption|reflexivity].
 Qed.
+
+(** * The per-kind precision cache *)
+
+Lemma pc_get_set_same c k v : pc_get (pc_set c k v) k = Some v.
+Proof. destruct k; reflexivity. Qed.
+
+Lemma pc_get_set_other c k k' v : tkind_eqb k k' = false -> pc_get (pc_set c k v) k' = pc_get c k'.
+Proof. destruct k, k'; cbn; intros H; try discriminate; reflexivity. Qed.
+
+Lemma tkind_eqb_eq a b : tkind_eqb a b = true <-> a = b.
+Proof. destruct a, b; cbn; split; intros H; try reflexivity; try discriminate. Qed.
+
+(** What the [i]-th query reports, for any cache state: the cached value of its
+    kind if there is one, else the first measurement of that kind among the
+    queries so far — whatever queries of the other kind happen in between. *)
+Lemma prec_queries_nth : forall qs c i k m,
+  nth_error qs i = Some (k, m) ->
+  nth_error (prec_queries c qs) i =
+  Some (match pc_get c k with
+        | Some v => v
+        | None => match first_of_kind k (firstn (S i) qs) with Some v => v | None => m end
+        end).
+Proof.
+  induction qs as [|[k0 m0] qs IH]; intros c i k m Hn.
+  - destruct i; discriminate.
+  - destruct i as [|i].
+    + cbn in Hn. injection Hn as -> ->. cbn [prec_queries prec_query].
+      destruct (pc_get c k) as [v|] eqn:Ec; cbn [nth_error].
+      * reflexivity.
+      * cbn [firstn first_of_kind]. replace (tkind_eqb k k) with true by (destruct k; reflexivity). reflexivity.
+    + cbn in Hn. cbn [prec_queries prec_query].
+      destruct (pc_get c k0) as [v0|] eqn:Ec0; cbn [nth_error].
+      * rewrite (IH c i k m Hn). cbn [firstn first_of_kind].
+        destruct (pc_get c k) as [v|] eqn:Ec; [reflexivity|].
+        destruct (tkind_eqb k k0) eqn:Ek.
+        -- apply tkind_eqb_eq in Ek. subst k0. rewrite Ec in Ec0. discriminate.
+        -- reflexivity.
+      * rewrite (IH (pc_set c k0 m0) i k m Hn). cbn [firstn first_of_kind].
+        destruct (tkind_eqb k k0) eqn:Ek.
+        -- apply tkind_eqb_eq in Ek. subst k0. rewrite pc_get_set_same, Ec0. reflexivity.
+        -- assert (Hk : tkind_eqb k0 k = false) by (destruct k, k0; cbn in *; congruence).
+           rewrite (pc_get_set_other c k0 k m0 Hk). reflexivity.
+Qed.
+
+Theorem precision_cached_per_kind : forall qs i k m,
+  nth_error qs i = Some (k, m) ->
+  nth_error (prec_queries pcache_empty qs) i = first_of_kind k qs.
+Proof.
+  intros qs i k m Hn. rewrite (prec_queries_nth qs pcache_empty i k m Hn).
+  assert (Hg : pc_get pcache_empty k = None) by (destruct k; reflexivity). rewrite Hg.
+  (* the first of kind k within the first i+1 queries is the first of kind k overall,
+     because query i itself has kind k *)
+  clear Hg. revert i Hn. induction qs as [|[k0 m0] qs IH]; intros i Hn.
+  - destruct i; discriminate.
+  - destruct i as [|i]; cbn in Hn.
+    + injection Hn as -> ->. cbn. replace (tkind_eqb k k) with true by (destruct k; reflexivity). reflexivity.
+    + cbn [firstn first_of_kind]. destruct (tkind_eqb k k0); [reflexivity|]. apply IH. exact Hn.
+Qed.
+
+(** Queries of one kind never change what the other kind reports. *)
+Theorem precision_kinds_independent : forall qs k,
+  first_of_kind k (filter (fun q => tkind_eqb k (fst q)) qs) = first_of_kind k qs.
+Proof.
+  induction qs as [|[k0 m0] qs IH]; intros k; [reflexivity|].
+  cbn [filter fst]. destruct (tkind_eqb k k0) eqn:Ek; cbn [first_of_kind]; rewrite Ek; [reflexivity|apply IH].
+Qed.
+
+Lemma all_eqb_repeat_like : forall (l : list N) v, Forall (fun x => x = v) l -> all_eqb l = true.
+Proof.
+  induction l as [|x t IH]; intros v H; [reflexivity|].
+  inversion H as [|? ? Hx Ht]; subst. destruct t as [|y t']; [reflexivity|].
+  inversion Ht as [|? ? Hy Ht']; subst. cbn [all_eqb]. rewrite N.eqb_refl. cbn [andb]. apply (IH v). exact Ht.
+Qed.
+
+(** The model satisfies the boolean specification: for every query sequence in
+    which every TSC measurement would give [tscv] and every OS measurement a
+    non-zero whole number of nanoseconds. *)
+Lemma prec_queries_length : forall qs c, length (prec_queries c qs) = length qs.
+Proof. induction qs as [|[k m] qs IH]; intros c; cbn; [reflexivity|]. destruct (pc_get c k); cbn; rewrite IH; reflexivity. Qed.
+
+Definition cache_ok (tscv : N) (c : pcache) : Prop :=
+  (forall v, pc_tsc c = Some v -> v = tscv) /\
+  (forall v, pc_os c = Some v -> 0 < v /\ v mod 1000 = 0).
+
+Definition os_val (c : pcache) (qs : list (tkind * N)) : option N :=
+  match pc_os c with Some v => Some v | None => first_of_kind KOs qs end.
+
+Lemma precq_invariant : forall qs c tscv,
+  cache_ok tscv c ->
+  Forall (fun q => match fst q with KTsc => snd q = tscv | KOs => 0 < snd q /\ snd q mod 1000 = 0 end) qs ->
+  Forall (fun ka => match fst ka with
+                    | KTsc => snd ka = tscv
+                    | KOs => Some (snd ka) = os_val c qs /\ 0 < snd ka /\ snd ka mod 1000 = 0
+                    end) (combine (map fst qs) (prec_queries c qs)).
+Proof.
+  induction qs as [|[k m] qs IH]; intros c tscv Hc Hq; [constructor|].
+  pose proof Hc as [Ht Ho].
+  inversion Hq as [|? ? Hq1 Hq2]; subst. cbn [map fst prec_queries prec_query].
+  destruct k; cbn [pc_get].
+  - (* OS query *)
+    cbn in Hq1. destruct (pc_os c) as [v|] eqn:Eo; cbn [combine].
+    + constructor.
+      * cbn. unfold os_val. rewrite Eo. split; [reflexivity|]. apply Ho. reflexivity.
+      * assert (H := IH c tscv Hc Hq2). unfold os_val in *. rewrite Eo in *. exact H.
+    + constructor.
+      * cbn. unfold os_val. rewrite Eo. cbn. split; [reflexivity|exact Hq1].
+      * assert (Hc' : cache_ok tscv (pc_set c KOs m)).
+        { split; cbn; [exact Ht|]. intros v Hv. injection Hv as <-. exact Hq1. }
+        assert (H := IH (pc_set c KOs m) tscv Hc' Hq2). unfold os_val in *. cbn in *. rewrite Eo. cbn. exact H.
+  - (* TSC query *)
+    cbn in Hq1. destruct (pc_tsc c) as [v|] eqn:Et; cbn [combine].
+    + constructor; [cbn; apply Ht; reflexivity|].
+      assert (H := IH c tscv Hc Hq2). unfold os_val in *. cbn. exact H.
+    + constructor; [cbn; exact Hq1|].
+      assert (Hc' : cache_ok tscv (pc_set c KTsc m)).
+      { split; cbn; [|exact Ho]. intros v Hv. injection Hv as <-. exact Hq1. }
+      assert (H := IH (pc_set c KTsc m) tscv Hc' Hq2). unfold os_val in *. cbn in *. exact H.
+Qed.
+
+Theorem precq_model_sb : forall qs tscv,
+  Forall (fun q => match fst q with KTsc => snd q = tscv | KOs => 0 < snd q /\ snd q mod 1000 = 0 end) qs ->
+  precq_sb (map fst qs) tscv (prec_queries pcache_empty qs) = true.
+Proof.
+  intros qs tscv Hq. unfold precq_sb.
+  assert (Hc : cache_ok tscv pcache_empty) by (split; cbn; intros v H; discriminate).
+  assert (HI := precq_invariant qs pcache_empty tscv Hc Hq).
+  rewrite map_length, prec_queries_length, Nat.eqb_refl. cbn [andb].
+  set (l := combine (map fst qs) (prec_queries pcache_empty qs)) in *.
+  assert (H1 : forallb (fun ka => match fst ka with KTsc => snd ka =? tscv | KOs => true end) l = true).
+  { apply forallb_forall. intros ka Hin. rewrite Forall_forall in HI. specialize (HI ka Hin).
+    destruct (fst ka); [reflexivity|]. apply N.eqb_eq. exact HI. }
+  rewrite H1. cbn [andb].
+  set (os := map snd (filter (fun ka => tkind_eqb (fst ka) KOs) l)).
+  assert (Hos : Forall (fun v => Some v = os_val pcache_empty qs /\ 0 < v /\ v mod 1000 = 0) os).
+  { unfold os. apply Forall_forall. intros v Hv. apply in_map_iff in Hv. destruct Hv as [ka [<- Hin]].
+    apply filter_In in Hin. destruct Hin as [Hin Hk]. rewrite Forall_forall in HI. specialize (HI ka Hin).
+    destruct (fst ka); [exact HI|discriminate]. }
+  assert (H2 : all_eqb os = true).
+  { destruct (os_val pcache_empty qs) as [w|] eqn:Ew.
+    - apply (all_eqb_repeat_like os w). eapply Forall_impl; [|exact Hos]. cbn. intros a [Ha _]. congruence.
+    - destruct os as [|x t]; [reflexivity|]. inversion Hos as [|? ? [Hx _] _]. discriminate. }
+  rewrite H2. cbn [andb]. apply forallb_forall. intros v Hv. rewrite Forall_forall in Hos. destruct (Hos v Hv) as [_ [Hp Hm]].
+  apply andb_true_iff. split; [apply N.ltb_lt; exact Hp|apply N.eqb_eq; exact Hm].
+Qed.
